@@ -136,3 +136,33 @@ PROPS.update({
         "Schedules with pairwise distinct costs are changed 0..n times (each valid or invalid by one entry); every successful priced execution must consume exactly its own entry plus per-byte components under the last ACCEPTED schedule (same-shard NFT moves: base or base + payload bytes).",
         HIST + "Non-trivial = a successful priced execution after >= 1 schedule change on its shard; distinct by (function, side, #changes capped at 3, validity of the last change, input size class).", 600, 5000),
 })
+
+PROPS.update({
+    "C13": engine_prop("TestC13", "metamorphic / differential PBT (rapid): every call of a generated history executed three times (history world, clone with fresh container, clone whose container served earlier calls; two on other goroutines) with byte-identical canonical serialisations; input laid out in one poisoned backing array",
+        "Each call's result (return code, gas, return data, logs in order, output accounts/transfers, error text) and resulting ledger are serialised canonically and must be identical across the three executions; the input structure, every argument slice and the shared backing array including spare capacity must equal the copy taken before the call.",
+        HIST + "Non-trivial = a successful call that changes state or emits an output transfer (executed 3x); distinct by (function, side, emits, #logs, shape labels).", 400, 2500),
+    "C17": engine_prop("TestC17", "fault-injection enumeration over rapid-generated successful scenarios: k-th call to each injected dependency fails, for every k",
+        "For every distinct successful scenario met (function, side, dependency-call signature, call type, #args) the call is re-run on a clone once for every (dependency kind, k <= number of calls to it) with that call failing: data-trie write, accounts-adapter load/save, marshal, unmarshal, payable query, balance/owner/reward operation (system-account load only inside ESDTPause/UnPause; storage reads and the pause lookup are excluded by the statement). Exhaustive per scenario over its fault points; the scenario space is sampled.",
+        HIST + "Each successful scenario is fault-enumerated completely. Non-trivial = one (scenario signature, dependency kind, k) triple whose injected fault was actually reached; distinct by that triple.", 400, 4000,
+        extra={"level": "fault_enumeration"}),
+    "C18": {
+        "test": "TestC18", "level": "exploration", "exhaustive_claim": True,
+        "technique": "exhaustive enumeration of epoch-notification sequences over a small domain + rapid-generated 32-bit sequences and factory configurations; registry equality and per-name behavioural fingerprints judged by the reference model",
+        "level_text": "IsActive of all 23 functions is checked after every notification for 6 activation epochs x every epoch sequence of length <= 5 over {0..4} and length <= 3 over 32-bit boundary values (complete), plus random sequences with repeats and regressions; for generated factory configurations Keys() must equal the 23 protocol names and a 32-step fingerprint scenario run through container.Get(name) must show each name's own effects exactly (engine exactness oracle) and succeed at least once per name.",
+        "level_note": ENGINE_NOTE + " The epoch notifier announces its current epoch (0) at registration, as elrond-go's does.",
+        "rule": "enumerated: (activation epoch, notification sequence) pairs as described; generated: random sequences around the activation epoch, factory configurations (1-3 shards, gas scale, name-change flag, owners, activation epoch). Non-trivial = a sequence with >= 1 notification that flips the expected activity, or a configuration put through the registry + binding fingerprint; distinct by sequence / configuration (enumerated ones are distinct by construction and sharded by process). exhaustive=true refers to the enumerated sub-domain only.",
+        "assumptions": ENGINE_ASSUMPTIONS,
+        "quick": {"procs": 4, "checks": 2500, "timeout_s": 600},
+        "thorough": {"procs": 16, "checks": 120000, "timeout_s": 3000},
+    },
+    "C19": {
+        "test": "TestC19", "level": "exploration", "race": True,
+        "technique": "randomised concurrency testing: rapid-generated operation mixes on 2-16 goroutines, recorded histories judged by a linearizability checker (porcupine) against sequential specifications, Go race detector, and a whole-schedule charge oracle under concurrent gas-schedule flips",
+        "level_text": "Schedules are sampled by the Go scheduler, not owned: hundreds (quick) to tens of thousands (thorough) of generated mixes on MutexMap, the function container and the six atomic types are run several times each and every recorded history must be linearizable; a live world runs priced executions on private accounts concurrently with schedule flips, epoch notifications and registry reads, under -race, and every charge must equal one schedule's formula as a whole. A bug needing one specific preemption can be missed; lock-discipline bugs are caught by the race detector regardless of interleaving.",
+        "level_note": "Trusted: porcupine v1.3.0, the Go race detector, the sequential specifications in harness/c19_test.go; one goroutine at a time calls GasScheduleChange (the factory is not documented as concurrent-safe for writers). Linearizability checks that time out (300 ms) are counted as inconclusive, never as violations.",
+        "rule": "generated (rapid): target object, 2-16 goroutines, 1-10 operations each over 4 keys, run 3 times (quick) / 10 times (thorough); live cases with 2-8 executing goroutines, 1-60 schedule flips, epoch notifications. Non-trivial = a mix containing >= 1 mutating operation in which operations of different goroutines overlapped in time in at least one run (measured from the recorded timestamps), or a live case; distinct by the rendered mix.",
+        "assumptions": ["WORLD", "ENC"],
+        "quick": {"procs": 4, "checks": 250, "timeout_s": 900, "gomaxprocs": 4, "env": {"VERIF_C19_ROUNDS": 3}},
+        "thorough": {"procs": 8, "checks": 6000, "timeout_s": 3400, "gomaxprocs": 4, "env": {"VERIF_C19_ROUNDS": 10}},
+    },
+})
